@@ -24,9 +24,9 @@ from . import c16, common
 
 EXTRA_OPS = {"seeded_pair"}
 EXPECTED_PROBES = ["reseed_of_same_generator_between_calls", "other_xgi_rng_consumer_between_calls",
-                   "same_function_other_seed_between_calls"]
+                   "same_function_other_seed_between_calls", "same_arguments_other_seed_around_calls"]
 PERTURB = ["py_draw", "np_draw", "py_reseed", "np_reseed", "same_fn_other_seed", "edge_shuffle", "other_generator",
-           "eigsh", "np_default_rng", "py_getrandbits", "np_choice"]
+           "eigsh", "np_default_rng", "py_getrandbits", "np_choice", "same_args_other_seed"]
 
 # argument recipes (besides seed) -----------------------------------------------------------
 NETWORK_FNS = {"shuffle_hyperedges", "random_layout", "pairwise_spring_layout", "bipartite_spring_layout",
@@ -66,6 +66,10 @@ def next_record(sim):
     rec = {"uid": g.next_uid(), "op": "seeded_pair", "fn": fn, "seed": seed,
            "argseed": r.randrange(1 << 30),
            "perturb": [[r.choice(PERTURB), r.randrange(1 << 16)] for _ in range(r.randint(0, 6))]}
+    # "regardless of earlier calls to the same function": other consumers also run *before* the
+    # first call (e.g. the same arguments with another seed, which may fill a cache)
+    rec["pre"] = [[r.choice(["same_args_other_seed", "same_args_other_seed", "same_fn_other_seed", "py_draw",
+                             "np_reseed"]), r.randrange(1 << 16)] for _ in range(r.choice([0, 0, 1, 2]))]
     return rec
 
 
@@ -77,7 +81,7 @@ def make_args(xgi, fn, argseed):
         if fn in ("fast_random_hypergraph", "uniform_erdos_renyi_hypergraph", "uniform_HPPM") and r.random() < 0.3:
             params = c16.sparse_large_params(r, fn)  # tiny p, large n
         if params is None:
-            params = c16.gen_params(r, fn)
+            params = c16.gen_params(r, fn, huge_rate=0.2)
         if fn == "uniform_erdos_renyi_hypergraph" and params["n"] <= 9 and r.random() < 0.5:
             params["p"] = r.choice([0.2, 0.5, 0.8])
         return ("gen", params)
@@ -176,6 +180,9 @@ def perturb(sim, kind, val, fn, argseed):
             elif kind == "same_fn_other_seed":
                 call(xgi, fn, argseed + 1, val)
                 w.probes["same_function_other_seed_between_calls"] += 1
+            elif kind == "same_args_other_seed":
+                call(xgi, fn, argseed, val)
+                w.probes["same_arguments_other_seed_around_calls"] += 1
             elif kind == "edge_shuffle":
                 H = xgi.Hypergraph([[1, 2, 3], [3, 4], [4, 5, 6]])
                 H.random_edge_shuffle()
@@ -200,6 +207,9 @@ def do_pair(sim, rec):
     if not hasattr(xgi, fn):
         return None
     cov = w.extra.setdefault("seeded_callable_coverage", {})
+    if make_args(xgi, fn, rec["argseed"]) is not None:
+        for kind, val in rec.get("pre", []):
+            perturb(sim, kind, val, fn, rec["argseed"])
     st1, r1 = call(xgi, fn, rec["argseed"], rec["seed"])
     if st1 == "UNCOVERED":
         cov[fn + "|uncovered"] = cov.get(fn + "|uncovered", 0) + 1
